@@ -107,6 +107,23 @@ Definition align_pos (a : align) (size space : N) : N :=
   | AOffset z => if (0 <=? z)%Z then Z.to_N z else (space - size) - Z.to_N (- z)
   end.
 
+(* usize subtraction and division as the code performs them (debug build): underflow and a zero
+   divisor panic.  The model uses them wherever the code writes a plain `-` or `/`; saturating_sub
+   stays truncated subtraction of N.  LayoutProofs shows none of them ever fires. *)
+Definition usub (site a b : N) : outcome N := if a <? b then Panic site else Ok (a - b).
+Definition udiv (site a b : N) : outcome N := if b =? 0 then Panic site else Ok (a / b).
+
+(* Align::align as coded (src/view/container.rs:35-50): `space - size` and `/ 2` are plain operators,
+   the negative offset uses saturating_sub *)
+Definition align_chk (a : align) (size space : N) : outcome N :=
+  let size := N.min size space in
+  match a with
+  | AStart | AExpand | AShrink => Ok 0
+  | ACenter => let* d := usub 1005 space size in udiv 1006 d 2
+  | AEnd => usub 1005 space size
+  | AOffset z => if (0 <=? z)%Z then Ok (Z.to_N z) else let* d := usub 1005 space size in Ok (d - Z.to_N (- z))
+  end.
+
 Definition align_eqb (a b : align) : bool :=
   match a, b with
   | AStart, AStart | ACenter, ACenter | AEnd, AEnd | AExpand, AExpand | AShrink, AShrink => true
@@ -192,13 +209,15 @@ Definition flex_spaces (j : justify) (unused n : N) : outcome (N * N) :=
   else
     match j with
     | JStart => Ok (0, 0)
-    | JCenter => Ok (unused / 2, 0)
+    | JCenter => let* s := udiv 1006 unused 2 in Ok (s, 0)
     | JEnd => Ok (unused, 0)
-    | JBetween => Ok (0, if n <=? 1 then unused else unused / (n - 1))
-    | JEvenly => Ok (unused / (n + 1), unused / (n + 1))
+    | JBetween =>
+        if n <=? 1 then Ok (0, unused)
+        else let* m := usub 1007 n 1 in let* s := udiv 1008 unused m in Ok (0, s)
+    | JEvenly => let* s := udiv 1008 unused (n + 1) in Ok (s, s)
     | JAround =>
         (* fix: children.len().max(1) *)
-        let space := unused / N.max n 1 in Ok (space / 2, space)
+        let* space := udiv 1008 unused (N.max n 1) in let* h := udiv 1006 space 2 in Ok (h, space)
     end.
 
 Definition flex_place (d : axis) (mn between : N) (acc : list ltree * N) (cht : lchild * ltree) : list ltree * N :=
@@ -206,6 +225,15 @@ Definition flex_place (d : axis) (mn between : N) (acc : list ltree * N) (cht : 
   let '((_, _, al), t) := cht in
   let '(r, c) := from_axes d off (align_pos al (minor d (l_hh t) (l_ww t)) mn) in
   (done ++ [set_pos t r c], sat_addN (sat_addN off (major d (l_hh t) (l_ww t))) between).
+
+(* the placing step with Align::align as coded; LayoutProofs.flex_place_chk_ok: it is flex_place *)
+Definition flex_place_chk (d : axis) (mn between : N) (acc : outcome (list ltree * N)) (cht : lchild * ltree)
+  : outcome (list ltree * N) :=
+  let* a := acc in
+  let '((_, _, al), t) := cht in
+  let* p := align_chk al (minor d (l_hh t) (l_ww t)) mn in
+  let '(r, c) := from_axes d (snd a) p in
+  Ok (fst a ++ [set_pos t r c], sat_addN (sat_addN (snd a) (major d (l_hh t) (l_ww t))) between).
 
 Definition flex_factors (cs : list lchild) : list positive :=
   flat_map (fun ch : lchild => match snd (fst ch) with Some f => [f] | None => [] end) cs.
@@ -220,7 +248,8 @@ Definition flex_layout (share : list positive -> nat -> N -> N) (d : axis) (j : 
     else Ok (mkFl2 (f1_trees p1) remain 0 (f1_minor p1) 0%nat) in
   let unused := major d (c_maxh c) (c_maxw c) - sat_addN (f1_nonflex p1) (f2_flex p2) in
   let* sp := flex_spaces j unused (N.of_nat (length cs)) in
-  let '(placed, off) := fold_left (flex_place d (f2_minor p2) (snd sp)) (combine cs (f2_trees p2)) ([], fst sp) in
+  let* pl := fold_left (flex_place_chk d (f2_minor p2) (snd sp)) (combine cs (f2_trees p2)) (Ok ([], fst sp)) in
+  let '(placed, off) := pl in
   let '(h, w) := from_axes d off (f2_minor p2) in
   let* hw := ct_clamp c h w in
   Ok (LNode 0 0 (fst hw) (snd hw) DNone placed).
@@ -234,7 +263,9 @@ Definition container_layout (lay : ct -> outcome ltree) (av ah : align) (m : mar
   let mw := cw - m_left m - m_right m in
   let cc := mkCt (if align_eqb av AExpand then mh else 0) (if align_eqb ah AExpand then mw else 0) mh mw in
   let* t := lay cc in
-  let t' := set_pos t (sat_addN (align_pos av (l_hh t) mh) (m_top m)) (sat_addN (align_pos ah (l_ww t) mw) (m_left m)) in
+  let* pr := align_chk av (l_hh t) mh in
+  let* pc := align_chk ah (l_ww t) mw in
+  let t' := set_pos t (sat_addN pr (m_top m)) (sat_addN pc (m_left m)) in
   let* ch' := if align_eqb av AShrink
               then clampN (sat_addN (sat_addN (l_hh t) (m_top m)) (m_bottom m)) (c_minh c) (c_maxh c) else Ok ch in
   let* cw' := if align_eqb ah AShrink
@@ -260,7 +291,8 @@ Fixpoint layout (vc : vctx) (v : vtree) (c : ct) {struct v} : outcome ltree :=
       let mj := major d (c_maxh c) (c_maxw c) in
       let mn := N.max (minor d (c_minh c) (c_minw c)) 1 in
       let '(h, w) := from_axes d mj 1 in
-      let '(r, cc) := from_axes d 0 (mn - 1) in
+      let* p := usub 1009 mn 1 in
+      let '(r, cc) := from_axes d 0 p in
       Ok (LNode r cc h w DNone [])
   | VTag tag child =>
       let* t := layout vc child c in
@@ -498,6 +530,22 @@ Fixpoint find_path (fuel : nat) (t : ltree) (r c : N) : list nat :=
       match find_child (l_kids t) 0 r c with
       | Some (i, k) => i :: find_path f k (r - l_row k) (c - l_col k)
       | None => []
+      end
+  end.
+
+(* the same with the subtractions of FindPath::next (src/view/layout.rs:245-246) checked;
+   PaintProofs.find_path_chk_ok: they never underflow, the result is find_path *)
+Fixpoint find_path_chk (fuel : nat) (t : ltree) (r c : N) : outcome (list nat) :=
+  match fuel with
+  | O => Ok []
+  | S f =>
+      match find_child (l_kids t) 0 r c with
+      | Some (i, k) =>
+          let* r' := usub 1010 r (l_row k) in
+          let* c' := usub 1010 c (l_col k) in
+          let* rest := find_path_chk f k r' c' in
+          Ok (i :: rest)
+      | None => Ok []
       end
   end.
 
